@@ -530,6 +530,169 @@ static void space_extreme(void)
 	}
 }
 
+
+/* ------------------------------------------------------------------ verdicts (C07) */
+
+static uint8_t VARC[1 << 18];
+
+static size_t one_member(const char *method, int level, const uint8_t *data, size_t dl, uint32_t size, uint16_t crc)
+{
+	ref_hdr f;
+	size_t n;
+	memset(&f, 0, sizeof f);
+	f.level = level; memcpy(f.method, method, 5); f.attr = 0x20; f.os = 'U';
+	f.name = (const uint8_t *) ""; f.area = (const uint8_t *) "";
+	f.packed = (uint32_t) dl; f.size = size; f.crc = crc;
+	f.time_raw = level <= 1 ? 0x3C21A000u : 1262304000u;
+	if (level <= 1) { f.name = (const uint8_t *) "MEMBER.BIN"; f.name_len = 10; }
+	else { f.ext[0].type = 1; f.ext[0].data = (const uint8_t *) "member.bin"; f.ext[0].len = 10; f.next = 1; }
+	n = ref_hdr_encode(&f, VARC, sizeof VARC);
+	memcpy(VARC + n, data, dl);
+	return n + dl;
+}
+
+/* the three verdicts must agree with "bytes produced have the recorded length and CRC" */
+static void verdict_case(const uint8_t *arc, size_t n, int supported, int must_be_bad, int do_extract, const char *what)
+{
+	mem_stream ms;
+	LHAInputStream *st;
+	LHAReader *rd;
+	LHAFileHeader *h;
+	static uint8_t buf[4096];
+	size_t got, total = 0;
+	uint16_t crc = 0;
+	int expected, v;
+	uint32_t rec_len; uint16_t rec_crc;
+	st = mem_open(&ms, arc, n, 1);
+	rd = lha_reader_new(st);
+	h = lha_reader_next_file(rd);
+	if (!h) { lha_reader_free(rd); lha_input_stream_free(st); return; }
+	rec_len = (uint32_t) h->length; rec_crc = h->crc;
+	while ((got = lha_reader_read(rd, buf, sizeof buf)) > 0) { crc = ref_crc16(crc, buf, got); total += got; if (total > rec_len) break; }
+	expected = total == rec_len && crc == rec_crc;
+	lha_reader_free(rd); lha_input_stream_free(st);
+	/* check */
+	st = mem_open(&ms, arc, n, 1);
+	rd = lha_reader_new(st);
+	h = lha_reader_next_file(rd);
+	v = h ? lha_reader_check(rd, NULL, NULL) : 0;
+	vf_step(vf_mix(expected * 2 + v, total));
+	if (v && !expected) vf_viol("c07-check-good-but-mismatch", "%s: check reports good, bytes produced %zu crc %04x, recorded %u / %04x", what, total, crc, rec_len, rec_crc);
+	if (!v && expected && supported) vf_viol("c07-check-bad-but-match", "%s: check reports bad although length and CRC match (%zu, %04x)", what, total, crc);
+	if (v && must_be_bad) vf_viol("c07-damage-undetected", "%s: damaged member tested good", what);
+	lha_reader_free(rd); lha_input_stream_free(st);
+	if (do_extract) {
+		int e;
+		st = mem_open(&ms, arc, n, 1);
+		rd = lha_reader_new(st);
+		h = lha_reader_next_file(rd);
+		e = h ? lha_reader_extract(rd, "c07-out.bin", NULL, NULL) : 0;
+		if (e && !expected) vf_viol("c07-extract-good-but-mismatch", "%s: extract reports success, bytes produced %zu crc %04x, recorded %u / %04x", what, total, crc, rec_len, rec_crc);
+		if (!e && expected && supported) vf_viol("c07-extract-bad-but-match", "%s: extract reports failure although length and CRC match", what);
+		lha_reader_free(rd); lha_input_stream_free(st);
+		unlink("c07-out.bin");
+	}
+	vf_outcome(vf_mix(expected * 2 + v, crc));
+}
+
+static void space_verdict(void)
+{
+	static uint8_t data[1 << 16], plain[1 << 16], tmp[1 << 16];
+	int mi, level;
+	unsigned hi, lo;
+	int burst_bytes = atoi(vf_extra("burst", "3"));
+	int fast = atoi(vf_extra("fast", "1"));
+	for (mi = 0; mi < 14; ++mi)
+	for (level = 0; level <= 2; ++level) {
+		size_t pl = 0, dl, n, cut, pos;
+		uint16_t crc;
+		const char *method = ALL_METHODS[mi];
+		char what[128];
+		dl = make_stream(method, 200 + 13 * (size_t) mi, 5 + (unsigned) mi, data, sizeof data, plain, sizeof plain, &pl);
+		if (!dl) { printf("HARNESS no stream for %s\n", method); continue; }
+		crc = ref_crc16(0, plain, pl);
+		/* every value of the recorded CRC field */
+		if (level == (mi % 3) || !fast)
+		for (hi = 0; hi < 256; ++hi) {
+			if (!vf_case("%s level %d recorded CRC %02xxx (256 values), true CRC %04x", method, level, hi, crc)) continue;
+			for (lo = 0; lo < 256; ++lo) {
+				n = one_member(method, level, data, dl, (uint32_t) pl, (uint16_t) (hi << 8 | lo));
+				snprintf(what, sizeof what, "recorded crc %04x", hi << 8 | lo);
+				verdict_case(VARC, n, 1, 0, lo == 0, what);
+			}
+			vf_nontrivial(vf_mix(mi * 4 + level, hi));
+		}
+		/* recorded length */
+		{
+			int k;
+			for (k = 0; k < 7; ++k) {
+				uint32_t L = k == 0 ? 0 : k == 5 ? (uint32_t) (2 * pl) : (mi == 12 ? 65536u : 0xFFFFFFFFu);   /* -pm1- is endless by specification: keep its declared length small */
+				if (k == 1) L = (uint32_t) pl - 1;
+				if (k == 2) L = (uint32_t) pl + 1;
+				if (k == 3) L = (uint32_t) pl;
+				if (k == 4) L = 1;
+				if (!vf_case("%s level %d recorded length %u (true %zu)", method, level, L, pl)) continue;
+				n = one_member(method, level, data, dl, L, crc);
+				snprintf(what, sizeof what, "recorded length %u", L);
+				verdict_case(VARC, n, 1, 0, 1, what);
+				/* also with the CRC of the truncated plaintext: a shorter recorded length with a matching CRC is a consistent member */
+				if (L < pl) { n = one_member(method, level, data, dl, L, ref_crc16(0, plain, L)); verdict_case(VARC, n, 1, 0, 0, "recorded length and CRC of a prefix"); }
+				vf_nontrivial(vf_mix(mi * 4 + level, 1000 + k));
+			}
+		}
+		/* data truncated at every byte (must be bad), every single-byte substitution */
+		n = one_member(method, level, data, dl, (uint32_t) pl, crc);
+		for (cut = n - dl; cut < n; ++cut) {
+			if (!vf_case("%s level %d data truncated to %zu of %zu bytes", method, level, cut - (n - dl), dl)) continue;
+			n = one_member(method, level, data, dl, (uint32_t) pl, crc);
+			verdict_case(VARC, cut, 1, 1, (cut & 7) == 0, "truncated data");
+			vf_nontrivial(vf_mix(mi * 4 + level, 2000 + cut));
+		}
+		if (level == 2 || !fast)
+		for (pos = 0; pos < dl; ++pos) {
+			unsigned val;
+			if (!vf_case("%s level %d compressed byte %zu of %zu: all 255 substitutions", method, level, pos, dl)) continue;
+			for (val = 1; val < 256; ++val) {
+				memcpy(tmp, data, dl);
+				tmp[pos] ^= (uint8_t) val;
+				n = one_member(method, level, tmp, dl, (uint32_t) pl, crc);
+				/* a stored member: a single-byte change is a burst of at most 8 bits and must be bad */
+				verdict_case(VARC, n, 1, mi < 3, 0, "substituted byte");
+			}
+			vf_nontrivial(vf_mix(mi * 4 + level, 100000 + pos));
+		}
+	}
+	/* stored member: every burst of 1..16 flipped bits at every bit offset */
+	{
+		int nb = burst_bytes, b;
+		unsigned p;
+		for (mi = 0; mi < 3; ++mi)
+		for (b = 0; b < nb * 8; ++b)
+		for (hi = 0; hi < 256; ++hi) {
+			uint8_t base[8] = { 0x12, 0x00, 0xFF, 0x80, 0x55, 0xAA, 0x01, 0x7E };
+			uint16_t crc = ref_crc16(0, base, (size_t) nb);
+			if (!vf_case("%s stored %d bytes, bursts starting at bit %d, patterns %02xxx", ALL_METHODS[mi], nb, b, hi)) continue;
+			for (lo = 0; lo < 256; ++lo) {
+				uint8_t d[8];
+				int k, spill = 0;
+				size_t n;
+				p = hi << 8 | lo;
+				if (!(p & 1)) continue;                 /* the burst starts at bit b */
+				memcpy(d, base, 8);
+				for (k = 0; k < 16; ++k) if (p & (1u << k)) {
+					int bit = b + k;
+					if (bit >= nb * 8) { spill = 1; break; }
+					d[bit / 8] ^= (uint8_t) (1u << (bit % 8));     /* bit order of the reflected CRC: least significant bit first */
+				}
+				if (spill) continue;
+				n = one_member(ALL_METHODS[mi], mi, d, (size_t) nb, (uint32_t) nb, crc);
+				verdict_case(VARC, n, 1, 1, 0, "burst");
+			}
+			vf_nontrivial(vf_mix(mi * 64 + b, 500000 + hi));
+		}
+	}
+}
+
 int main(int argc, char **argv)
 {
 	int prop;
@@ -538,6 +701,7 @@ int main(int argc, char **argv)
 	if (!strcmp(VF.space, "kinds")) space_kinds(prop);
 	else if (!strcmp(VF.space, "sfx")) space_sfx();
 	else if (!strcmp(VF.space, "extreme")) space_extreme();
+	else if (!strcmp(VF.space, "verdict")) space_verdict();
 	else { fprintf(stderr, "unknown space %s\n", VF.space); return 2; }
 	vf_done();
 	return 0;
